@@ -1,7 +1,7 @@
 """C14 — declared scheme applicability is truthful; complete data is never refused."""
 import random
 from hypothesis import strategies as st
-from vlib import gen, lib, configs, oracle
+from vlib import gen, lib, configs, oracle, mutate
 from vlib.harness import HypSub
 from vlib.lib import Violation
 from checks.common_alg import well_formed, size_limit, build_dataset
@@ -72,11 +72,10 @@ def cases(draw, tier):
     shapes = ["complete", "identical", "near_unanimous", "cyclic"] if complete else \
         ["incomplete", "incomplete", "sparse_block", "near_unanimous_incomplete", "cyclic_incomplete", "block_cyclic"]
     ds = draw(gen.datasets(max_n=mx, min_n=2, max_m=5, shapes=shapes, allow_empty_rankings=not complete))
-    via = draw(st.integers(0, 2)) == 0 and all(len(r) > 0 for r in ds["rankings"])
     return {"config": name, "env": env, "scheme": draw(schemes()), "dataset": ds,
             "at_most_one": draw(st.sampled_from([True, True, False])), "rng": draw(st.integers(0, 9999)),
-            # one case in three: the Dataset object reached these rankings through remove_elements
-            "via_mutation": [draw(st.integers(0, 10 ** 6)) for _ in range(len(ds["rankings"]))] if via else None}
+            # one case in three: the Dataset object reached these rankings through an in-place mutation
+            "via_mutation": draw(mutate.via_strategy(ds["rankings"], p=3))}
 
 
 def check(case, ctx):
